@@ -180,6 +180,8 @@ impl Pool {
 
         if let Some(index) = self.free.pop() {
             ptr = self.block.slot_ptr(index);
+            #[cfg(naijascript_verif)]
+            crate::sys::verif_shim::mem::on_pool_reissue();
 
             if cfg!(debug_assertions) {
                 let slot = unsafe {
@@ -223,6 +225,8 @@ impl Pool {
         if cfg!(debug_assertions) {
             unsafe { ptr.as_ptr().write_bytes(0xDD, self.block.slot_size as usize) };
         }
+        #[cfg(naijascript_verif)]
+        crate::sys::verif_shim::mem::on_pool_dealloc(ptr.as_ptr(), self.block.slot_size as usize);
 
         self.free.push(index);
 
@@ -276,6 +280,11 @@ impl<'a> PoolSet<'a> {
     /// Creates all 20 pools, allocating `SlotBlocks` and `FreeLists` from the arena.
     /// Consumes ~1.3 MiB of arena space at startup.
     pub(crate) fn new(arena: &'a Arena) -> Self {
+        #[cfg(naijascript_verif)]
+        if let Some(counts) = crate::sys::verif_shim::mem::pool_slot_counts() {
+            let pools = std::array::from_fn(|i| Pool::new(arena, SLOT_SIZES[i], counts[i]));
+            return Self { pools, arena };
+        }
         let pools = std::array::from_fn(|i| Pool::new(arena, SLOT_SIZES[i], SLOT_COUNTS[i]));
         Self { pools, arena }
     }
@@ -289,6 +298,8 @@ impl<'a> PoolSet<'a> {
         {
             return ptr;
         }
+        #[cfg(naijascript_verif)]
+        crate::sys::verif_shim::mem::on_pool_fallback(size as usize);
         let layout = Layout::from_size_align(size as usize, 1).expect("invalid layout");
         self.arena.allocate(layout).expect("arena capacity exceeded")
     }
@@ -329,6 +340,12 @@ impl<'a> PoolSet<'a> {
     pub(crate) fn arena(&self) -> &'a Arena {
         self.arena
     }
+}
+
+/// Public wrappers over the crate-private pool for the verification harness.
+#[cfg(naijascript_verif)]
+pub mod verif_api {
+    include!(concat!(env!("NAIJASCRIPT_VERIF_DIR"), "/pool_api.rs"));
 }
 
 #[cfg(test)]
